@@ -262,6 +262,63 @@ theorem countP_lt_range (N m : Nat) : ((List.range N).countP (fun w => decide (w
     · simp [h]; omega
     · simp [h]; omega
 
+/-! RandomChance: counts that do not depend on which words fire -/
+
+/-- Of the words `0 … N−1` exactly `N − a` are `≥ a`. -/
+theorem countP_ge_range (N a : Nat) : ((List.range N).countP (fun w => decide (a ≤ w))) = N - a := by
+  induction N with
+  | zero => simp
+  | succ N ih =>
+    rw [List.range_succ, List.countP_append, ih]
+    by_cases h : a ≤ N
+    · simp [h]; omega
+    · simp [h]; omega
+
+/-- The test "among the `m` LARGEST of `N` words" fires for exactly `min m N` words. -/
+theorem countP_upper_range (N m : Nat) :
+    ((List.range N).countP (fun w => decide (N - 1 - w < m))) = min m N := by
+  have : ∀ w ∈ List.range N, (decide (N - 1 - w < m)) = (decide (N - m ≤ w)) := by
+    intro w hw
+    have hw' : w < N := List.mem_range.mp hw
+    by_cases h : N - m ≤ w
+    · simp [h]; omega
+    · simp [h]; omega
+  rw [List.countP_congr (fun w hw => by rw [this w hw]), countP_ge_range]
+  omega
+
+/-- Any bijective relabelling of the words keeps the count. -/
+theorem countP_relabel (N m : Nat) (σ : Nat → Nat) (hσ : ((List.range N).map σ).Perm (List.range N)) :
+    ((List.range N).countP (fun w => decide (σ w < m))) = min m N := by
+  have h1 : ((List.range N).map σ).countP (fun w => decide (w < m)) =
+      (List.range N).countP (fun w => decide (σ w < m)) := by
+    rw [List.countP_map]; rfl
+  rw [← h1, hσ.countP_eq, countP_lt_range]
+
+/-- Sweep: of the `N` equidistant words `o + k·D` (`k < N`) exactly `min ⌈(m − o)/D⌉ N` are below `m`. -/
+theorem sweep_lower_count (N D o m : Nat) (hD : 0 < D) :
+    ((List.range N).countP (fun k => decide (o + k * D < m))) = min ((m - o + D - 1) / D) N := by
+  have : ∀ k, decide (o + k * D < m) = decide (k < (m - o + D - 1) / D) := by
+    intro k
+    have h : k < (m - o + D - 1) / D ↔ (k + 1) * D ≤ m - o + D - 1 := by
+      rw [Nat.lt_iff_add_one_le, Nat.le_div_iff_mul_le hD]
+    have e : (k + 1) * D = k * D + D := by rw [Nat.add_mul]; simp
+    by_cases hh : o + k * D < m
+    · have : k < (m - o + D - 1) / D := h.mpr (by rw [e]; omega)
+      simp [hh, this]
+    · have : ¬ k < (m - o + D - 1) / D := fun hk => by have := h.mp hk; rw [e] at this; omega
+      simp [hh, this]
+  simp only [this]
+  exact countP_lt_range N _
+
+/-- … which is `⌊m/D⌋` or `⌊m/D⌋ + 1` for every offset `o < D`. -/
+theorem sweep_lower_bounds (D o m : Nat) (hD : 0 < D) (ho : o < D) :
+    m / D ≤ (m - o + D - 1) / D ∧ (m - o + D - 1) / D ≤ m / D + 1 := by
+  constructor
+  · exact Nat.div_le_div_right (by omega)
+  · calc (m - o + D - 1) / D ≤ (m + D) / D := Nat.div_le_div_right (by omega)
+      _ = m / D + 1 := Nat.add_div_right m hD
+
+
 /-! ### Loop -/
 
 section loop
